@@ -1,9 +1,7 @@
 // Families "vol-roundtrip" (C01: pack -> reopen -> list/stream/extract vs an in-memory file-set model,
 // refusal worlds with disk snapshots; C02: the durable bytes parsed by the independent VOL decoder) and
 // "vol-foreign" (C02: archives emitted by the independent encoder opened with the library).
-#include "archive_check.h"
-#include "../models/refvol.h"
-#include "../models/reflzh.h"
+#include "volworld.h"
 #include "Archive/VolFile.h"
 #include <algorithm>
 #include <memory>
@@ -221,64 +219,6 @@ FamilyRegistrar regVolRoundtrip(new VolRoundtrip);
 
 // ---------------------------------------------------------------------------------------------
 // vol-foreign: archives from the independent encoder
-
-std::vector<Member> membersFromWorld(const Plan& plan, uint32_t& spare) {
-	std::vector<Member> ms;
-	spare = 0;
-	for (auto& l : plan.world) {
-		if (l.verb == "volopts") spare = static_cast<uint32_t>(l.u("spare", 0));
-		if (l.verb != "member") continue;
-		Member m;
-		m.name = unquoteToken(l.get("name"));
-		if (m.name.empty()) continue;
-		m.kind = static_cast<uint16_t>(l.u("kind", 0x100));
-		std::vector<uint8_t> payload = prngBytes(l.u("cseed"), static_cast<size_t>(l.u("len")));
-		if (l.u("lowentropy", 0)) for (auto& c : payload) c = static_cast<uint8_t>('a' + c % 4);
-		if (m.kind == 0x103) {
-			ref::LzhTokens toks = ref::tokenize(payload, l.u("tseed", 1));
-			m.stored = ref::lzhEncode(toks);
-			m.data = ref::lzhDecode(m.stored).out;  // what extraction must produce
-			m.size = static_cast<uint32_t>(payload.size());
-		} else if (m.kind == 0x100) {
-			m.stored = payload; m.data = payload; m.size = static_cast<uint32_t>(payload.size());
-		} else {
-			m.stored = payload; m.data = payload; m.size = static_cast<uint32_t>(l.u("usize", payload.size()));
-		}
-		bool clash = false;
-		for (auto& o : ms) if (ref::nameEqualNoCase(o.name, m.name)) clash = true;
-		if (!clash) ms.push_back(m);
-	}
-	std::sort(ms.begin(), ms.end(), [](const Member& a, const Member& b) { return ref::nameCompare(a.name, b.name) < 0; });
-	return ms;
-}
-
-ref::VolImage imageOf(const std::vector<Member>& ms, uint32_t spare) {
-	std::vector<ref::VolMember> v;
-	for (auto& m : ms) { ref::VolMember x; x.name = m.name; x.stored = m.stored; x.size = m.size; x.kind = m.kind; v.push_back(x); }
-	return ref::encodeVol(v, spare);
-}
-
-void genMembers(Plan& p, Rng& r, size_t maxMembers, size_t maxLen, bool allowLzh) {
-	size_t n;
-	switch (r.below(5)) { case 0: n = 0; break; case 1: n = 1; break; default: n = r.range(1, maxMembers); break; }
-	std::vector<std::string> names;
-	for (size_t i = 0; i < n; ++i) {
-		std::string nm = randName(r, 1, 12, true);
-		if (!names.empty() && r.chance(1, 3)) { const std::string& o = names[r.below(names.size())]; nm = o.substr(0, 1 + r.below(o.size())) + randName(r, 1, 2, false); }
-		names.push_back(nm);
-		Line m = mkline("world", "member");
-		uint64_t k = r.below(10);
-		uint16_t kind = k < 6 ? 0x100 : (k < 8 && allowLzh) ? 0x103 : k < 9 ? 0x101 : 0x102;
-		uint64_t len = r.chance(1, 5) ? r.below(4) : r.below(maxLen);
-		m.set("name", quoteToken(nm)).set("cseed", hex64(r.next())).set("len", len).set("kind", hex64(kind));
-		if (kind == 0x103) m.set("tseed", hex64(r.next())).set("lowentropy", r.below(2));
-		if (kind == 0x101 || kind == 0x102) m.set("usize", r.below(100000));
-		p.world.push_back(m);
-	}
-	Line o = mkline("world", "volopts");
-	o.set("spare", r.chance(1, 2) ? 0 : r.range(1, 3));
-	p.world.push_back(o);
-}
 
 struct VolForeign : Family {
 	std::string name() const override { return "vol-foreign"; }
